@@ -670,8 +670,9 @@ def expand_single_defs(fnode, expr, keep=(), max_depth=6):
     from .derefactor import _clone
 
     counts = {}
+    bare = {id(n.target) for n in walk_function(fnode) if isinstance(n, ast.AnnAssign) and n.value is None}  # `cdef int x` declarations
     for n in walk_function(fnode):
-        if isinstance(n, ast.Name) and isinstance(n.ctx, (ast.Store, ast.Del)):
+        if isinstance(n, ast.Name) and isinstance(n.ctx, (ast.Store, ast.Del)) and id(n) not in bare:
             counts[n.id] = counts.get(n.id, 0) + 1
     a = fnode.args
     params = {x.arg for x in a.posonlyargs + a.args + a.kwonlyargs}
@@ -679,6 +680,10 @@ def expand_single_defs(fnode, expr, keep=(), max_depth=6):
     for n in walk_function(fnode):
         if isinstance(n, ast.Assign) and len(n.targets) == 1 and isinstance(n.targets[0], ast.Name):
             nm = n.targets[0].id
+            if counts.get(nm) == 1 and nm not in params and nm not in keep:
+                bind[nm] = n.value
+        elif isinstance(n, ast.AnnAssign) and n.value is not None and isinstance(n.target, ast.Name):
+            nm = n.target.id
             if counts.get(nm) == 1 and nm not in params and nm not in keep:
                 bind[nm] = n.value
 
@@ -729,3 +734,59 @@ def ancestors(node):
     while n is not None:
         yield n
         n = getattr(n, "parent", None)
+
+
+def bound_args(call, callee_node, skip_self=None):
+    """{parameter name: argument expression} of ``call`` against the signature of ``callee_node`` (positional, keyword and
+    default values); None if the call uses * / ** or does not fit."""
+    a = callee_node.args
+    params = [x.arg for x in a.posonlyargs + a.args]
+    if skip_self is None:
+        skip_self = bool(params) and params[0] in ("self", "cls") and isinstance(call.func, ast.Attribute)
+    if skip_self:
+        params = params[1:]
+    if any(isinstance(x, ast.Starred) for x in call.args) or any(k.arg is None for k in call.keywords) or len(call.args) > len(params):
+        return None
+    out = dict(zip(params, call.args))
+    for k in call.keywords:
+        if k.arg in out:
+            return None
+        out[k.arg] = k.value
+    defaults = a.defaults
+    for prm, d in zip(params[::-1], defaults[::-1]):
+        out.setdefault(prm, d)
+    for x, d in zip(a.kwonlyargs, a.kw_defaults):
+        if d is not None:
+            out.setdefault(x.arg, d)
+    return out
+
+
+def strip_order_wrappers(e):
+    """x for sorted(x) / list(x) / tuple(x) / set(x) / frozenset(x) / iter(x): the same elements (use only where order and
+    multiplicity do not matter to the consumer)."""
+    while isinstance(e, ast.Call) and isinstance(e.func, ast.Name) and e.func.id in ("sorted", "list", "tuple", "set", "frozenset", "iter") and len(e.args) == 1 and not e.keywords:
+        e = e.args[0]
+    return e
+
+
+def preorder_index(fnode):
+    """{id(node): position} in a depth-first pre-order walk of the function (textual order, immune to relocated line numbers)."""
+    out = {}
+
+    def rec(n):
+        out[id(n)] = len(out)
+        for c in ast.iter_child_nodes(n):
+            rec(c)
+
+    rec(fnode)
+    return out
+
+
+def nearest_preceding_def(fnode, name, before, order=None):
+    """Value of the plain assignment to ``name`` that most closely precedes node ``before`` in textual order (or None)."""
+    order = order or preorder_index(fnode)
+    best = None
+    for s_, v_ in assignments_to(fnode, name):
+        if isinstance(v_, ast.AST) and id(s_) in order and order[id(s_)] < order.get(id(before), -1) and (best is None or order[id(s_)] > order[id(best[0])]):
+            best = (s_, v_)
+    return best[1] if best else None
